@@ -349,6 +349,17 @@ func TestVerifBoundedC06(t *testing.T) {
 			}
 		}
 		gen(nil, n)
+		// long inputs: "always terminates with either a route or an error" and "accepts exactly the grammar" have no length limit
+		for _, reps := range []int{300, 1100, 2500} {
+			work <- strings.Repeat("/a", reps)
+			work <- "/" + strings.Repeat("a{b}", reps)
+			work <- "/{a:" + strings.Repeat(" ", reps) + "b}"
+			work <- "/{a: b," + strings.Repeat(" ", reps) + "c: d}"
+			work <- "/{a: /" + strings.Repeat("x", reps) + "/}"
+			work <- "/{" + strings.Repeat("a: b, ", reps) + "z: y}"
+			work <- "/" + strings.Repeat("a", reps) + "/?{" + strings.Repeat("b", reps) + "}"
+			work <- strings.Repeat("/a", reps) + "{" // a long prefix of a route that is not one
+		}
 		// derivations of the grammar beyond the exhaustive length, with all single-character edits (near misses)
 		idents := []string{"a", "*", "0.", "b$"}
 		regexes := []string{"b", "[a]+", "(a|b)", "a{2, 3}"}
